@@ -805,7 +805,7 @@ class C:
     def sqrt(self):
         # a complex value whose imaginary part is identically zero (e.g. v @ v.conj()): principal root of the real part
         im = self.im
-        if im.q is None and not im.d:
+        if im.q is None:
             try:
                 s = z3.simplify(im.n, som=True)
                 if z3.is_rational_value(s) and s.as_fraction() == 0:
